@@ -35,6 +35,11 @@
 (* PSrcInj      VInjectPayloadSource -> 9, injects b = 7 (collision fails) *)
 (* ProbeP       VScaleProbe: ctx[k1] := value * factor (factor = 1)        *)
 (* Touch        VTouchOperation: identity that logs its invocation         *)
+(* CtxWP        VCtxScaleWrite: returns value * factor, writes w := result  *)
+(* SliceCtxW    slice:VCtxScaleWrite:FloatDataCollection (per item; the     *)
+(*              last item's write is what remains under w)                  *)
+(* SweepCtxW    sweep over VCtxScaleWrite, parameters {factor: t}: one      *)
+(*              element per step, every step writes w (last one remains)    *)
 (***************************************************************************)
 EXTENDS Values
 
@@ -49,16 +54,17 @@ WithBogus(n)      == [n EXCEPT !.cfg = [x \in (DOMAIN n.cfg) \cup {"bogus"} |->
                                            IF x \in DOMAIN n.cfg THEN n.cfg[x] ELSE 1]]
 
 SourceKinds  == {"Src", "SrcDef", "Src0", "SweepSrc", "SweepSrcCtx", "PSrc", "PSrcInj"}
-FloatInKinds == {"Mul", "MulDef", "Add", "Sq", "Probe", "ProbeP", "Sink", "PSink", "Touch", "CtxW", "CtxWBad", "Boom", "Abort", "SweepMul"}
-CollInKinds  == {"SliceMul", "SliceMulDef", "SliceProbe", "Sum"}
+FloatInKinds == {"Mul", "MulDef", "Add", "Sq", "Probe", "ProbeP", "Sink", "PSink", "Touch", "CtxW", "CtxWBad", "Boom", "Abort", "SweepMul",
+                 "CtxWP", "SweepCtxW"}
+CollInKinds  == {"SliceMul", "SliceMulDef", "SliceProbe", "Sum", "SliceCtxW"}
 CtxKinds     == {"Rename", "Delete", "Template"}
 ProbeKinds   == {"Probe", "SliceProbe", "ProbeP"}
-SweepKinds   == {"SweepSrc", "SweepMul", "SweepSrcCtx"}
+SweepKinds   == {"SweepSrc", "SweepMul", "SweepSrcCtx", "SweepCtxW"}
 PassKinds    == ProbeKinds \cup {"Sink", "PSink"} \cup CtxKinds      \* data passes through unchanged
 
 ParamNames(n) ==
     CASE n.kind \in {"Src", "SrcDef"}                          -> {"value"}
-      [] n.kind \in {"Mul", "MulDef", "SliceMul", "SliceMulDef"} -> {"factor"}
+      [] n.kind \in {"Mul", "MulDef", "SliceMul", "SliceMulDef", "CtxWP", "SliceCtxW"} -> {"factor"}
       [] n.kind = "Add"                                        -> {"addend"}
       [] n.kind = "ProbeP"                                     -> {"factor"}
       [] n.kind \in CtxKinds                                   -> {n.k1}
@@ -82,13 +88,14 @@ InT(n) == IF n.kind \in SourceKinds THEN "none"
           ELSE IF n.kind \in CollInKinds THEN "coll" ELSE "any"
 
 \* "same" = the node passes its input type through
-OutT(n) == IF n.kind \in {"PSrc", "PSrcInj", "Touch", "Src", "SrcDef", "Src0", "Mul", "MulDef", "Add", "Sq", "CtxW", "CtxWBad", "Boom", "Abort", "Sum"} THEN "float"
-           ELSE IF n.kind \in {"SweepSrc", "SweepSrcCtx", "SweepMul", "SliceMul", "SliceMulDef"} THEN "coll"
+OutT(n) == IF n.kind \in {"PSrc", "PSrcInj", "Touch", "Src", "SrcDef", "Src0", "Mul", "MulDef", "Add", "Sq", "CtxW", "CtxWBad", "Boom", "Abort", "Sum", "CtxWP"} THEN "float"
+           ELSE IF n.kind \in {"SweepSrc", "SweepSrcCtx", "SweepMul", "SliceMul", "SliceMulDef", "SliceCtxW", "SweepCtxW"} THEN "coll"
            ELSE "same"
 
 Created(n) == CASE n.kind \in ProbeKinds             -> {n.k1}
                 [] n.kind \in {"Rename", "Template"} -> {n.k2}
-                [] n.kind \in {"CtxW", "CtxWBad"}    -> {"w"}     \* declared keys (CtxWBad writes another one)
+                [] n.kind \in {"CtxW", "CtxWBad", "CtxWP", "SliceCtxW"} -> {"w"}     \* declared keys (CtxWBad writes another one)
+                [] n.kind = "SweepCtxW"              -> {"t_values", "w"}   \* the element's declared key + the sweep's own
                 [] n.kind = "PSrcInj"                -> {"b"}
                 [] n.kind \in SweepKinds             -> {"t_values"}
                 [] OTHER                             -> {}
@@ -141,6 +148,18 @@ Apply(n, data, ctx, arg) ==
       [] n.kind = "ProbeP" ->
             IF IsNum(arg["factor"]) THEN Ok(data, Set(ctx, n.k1, Num(data.v * arg["factor"].v))) ELSE Bad("proc", data, ctx)
       [] n.kind = "CtxW" -> Ok(Float(data.v + 1), Set(ctx, "w", Num(data.v)))
+      [] n.kind = "CtxWP" ->
+            IF IsNum(arg["factor"]) THEN Ok(Float(data.v * arg["factor"].v), Set(ctx, "w", Num(data.v * arg["factor"].v)))
+            ELSE Bad("proc", data, ctx)
+      [] n.kind = "SliceCtxW" ->
+            IF data.items = <<>> THEN Ok(Coll(<<>>), ctx)
+            ELSE IF IsNum(arg["factor"])
+                 THEN Ok(Coll([i \in 1..Len(data.items) |-> data.items[i] * arg["factor"].v]),
+                         Set(ctx, "w", Num(data.items[Len(data.items)] * arg["factor"].v)))
+                 ELSE Bad("proc", data, ctx)
+      [] n.kind = "SweepCtxW" ->
+            Ok(Coll([i \in 1..Len(n.sw) |-> data.v * n.sw[i]]),
+               Set(Set(ctx, "w", Num(data.v * n.sw[Len(n.sw)])), "t_values", List(n.sw)))
       [] n.kind = "CtxWBad" -> Bad("undeclared", data, ctx)
       [] n.kind = "Boom" -> Bad("proc", data, ctx)
       [] n.kind = "Abort" -> Bad("abort", data, ctx)
